@@ -11,6 +11,7 @@ import (
 	"sort"
 	"strings"
 	"sync"
+	"sync/atomic"
 	"time"
 )
 
@@ -201,6 +202,7 @@ func replayTours(in io.Reader, cfg *RunCfg, findings *Findings, maxReport int) *
 		tour []Step
 	}
 	jobs := make(chan job, 256)
+	var hangs int32
 	var mu sync.Mutex
 	var wg sync.WaitGroup
 	if cfg.Workers <= 0 {
@@ -211,6 +213,9 @@ func replayTours(in io.Reader, cfg *RunCfg, findings *Findings, maxReport int) *
 		go func() {
 			defer wg.Done()
 			for j := range jobs {
+				if atomic.LoadInt32(&hangs) >= 2 {
+					continue // the server under test hangs: stop spending a deadline per tour
+				}
 				for _, sysName := range cfg.Systems {
 					for _, km := range cfg.KeyModes {
 						salt := int64(j.idx)
@@ -233,6 +238,9 @@ func replayTours(in io.Reader, cfg *RunCfg, findings *Findings, maxReport int) *
 						sum.PerSystem[sysName]++
 						if m != nil && confirmed == nil {
 							sum.Unconfirmed++
+						}
+						if confirmed != nil && len(confirmed.Msgs) > 0 && strings.Contains(confirmed.Msgs[0], "did not return within the deadline") {
+							atomic.AddInt32(&hangs, 1)
 						}
 						if confirmed != nil {
 							if id := findings.Classify(confirmed, cfg.Property); id != "" {
